@@ -9,6 +9,7 @@
 #include <vector>
 #include <string>
 #include <execinfo.h>
+#include <pthread.h>
 extern "C" {
 #include <plibsys.h>
 }
@@ -32,6 +33,8 @@ struct State {
   bool in_hook = false;
 };
 inline State &st() { static State s; return s; }
+inline pthread_mutex_t *mx() { static pthread_mutex_t m = PTHREAD_MUTEX_INITIALIZER; return &m; }
+struct Lock { Lock() { pthread_mutex_lock(mx()); } ~Lock() { pthread_mutex_unlock(mx()); } };
 
 inline bool should_fail() {
   State &s = st();
@@ -53,12 +56,14 @@ inline void note_alloc(void *p, size_t n) {
   s.live[p] = b;
 }
 inline ppointer v_malloc(psize n) {
+  Lock lk;
   if (should_fail()) return NULL;
   void *p = malloc(n);
   note_alloc(p, n);
   return p;
 }
 inline ppointer v_realloc(ppointer mem, psize n) {
+  Lock lk;
   if (should_fail()) return NULL;
   State &s = st();
   void *p = realloc(mem, n);
@@ -67,6 +72,7 @@ inline ppointer v_realloc(ppointer mem, psize n) {
 }
 inline void v_free(ppointer mem) {
   if (!mem) return;
+  Lock lk;
   State &s = st();
   auto it = s.live.find(mem);
   if (it == s.live.end()) s.frees_of_unknown++;
@@ -83,7 +89,7 @@ inline void arm(uint64_t fail_at = 0, bool all_after = false) {
   s.armed = true; s.window = 0; s.fail_at = fail_at; s.fail_all_after = all_after; s.failed = 0;
 }
 inline uint64_t disarm() { State &s = st(); s.armed = false; s.fail_at = 0; return s.window; }
-inline size_t live_count() { return st().live.size(); }
+inline size_t live_count() { Lock lk; return st().live.size(); }
 inline std::vector<uint64_t> live_seqs() { std::vector<uint64_t> v; for (auto &kv : st().live) v.push_back(kv.second.seq); return v; }
 
 } // namespace va
